@@ -164,6 +164,7 @@ func runC03(c *Check, w *World) {
 		c.Fatal("ValidateHOTP: cannot identify secret/code/counter/param parameters")
 		return
 	}
+	ruleWasmWindow(c, w, tb, iv, "R03.W", "validateHOTP", true)
 	wr := analyseWindow(c, w, tb, iv, "R03", val, isStepValidator(w), fmt.Sprintf("param(%s#%d)", fn, ctrP), true)
 	if wr != nil {
 		// the gated size is param.Skew (default's when nil)
@@ -216,8 +217,8 @@ func init() {
 			"R03.3 step i validates counter c+i (c-(-i) for i<0) centred on the caller's counter; R03.4 a step below zero is skipped exactly when c < uint64(-i), compared unsigned; R03.5 acceptance only under that iteration's verdict, every return on the path is a well-formed verdict; " +
 			"R03.6 with parameters bound through the closure, the constant-time comparison is between the whole submitted string and the whole string returned by the same derivation generation uses, called with (DecodeSecret(secret), the loop's counter, param.Digits, param.Algorithm), after len(code) is compared with those same digits, accepted on == 1; R03.7 nil parameters resolve to DefaultHOTPParam = {6, SHA-1, window 2}. " +
 			"Together with C01 (the derivation is the RFC value) this is the membership oracle. Not decided: that codes of different counters differ (not claimed by the property).",
-		quick:    []Config{CfgNative},
-		thorough: []Config{CfgNative, Cfg386},
+		quick:    []Config{CfgNative, CfgWasm},
+		thorough: []Config{CfgNative, CfgWasm, Cfg386},
 		run:      runC03,
 	})
 }
